@@ -257,6 +257,7 @@ int main() {
 #endif
             int r = Jac(0.0, u, fu, A, &g_data, NULL, NULL, NULL);
             printf("{\"ev\":\"jac\",\"ret\":%d,\"mode\":%d,", r, g_mode);
+            parr("k", (g_mode == MODE_PASS ? seen_k : use_k).data(), NREACTIONS); printf(",");
 #ifdef VERIF_SPARSE
             printf("\"layout\":\"csr\","); parr_i("rowptrs", A->indexptrs, NEQUATIONS + 1);
             printf(","); parr_i("colvals", A->indexvals, NNZ);
